@@ -305,7 +305,11 @@ func (w *vhCluster) settle(first *ctrl.Request) {
 		}
 	}
 	for round := 0; len(w.r.Reload) > 0; round++ {
-		vr.Assume(round < 6)
+		// every re-sync requests another one: the controller never becomes quiescent
+		vr.Assert(round < 6, "no quiescence: six consecutive full re-syncs each requested a further one")
+		if round >= 6 {
+			vr.Stop()
+		}
 		for len(w.r.Reload) > 0 {
 			<-w.r.Reload
 		}
